@@ -13,6 +13,22 @@ Hypotheses collected in `CfgOK`: `canon` is idempotent on its image (C03); the r
 `unrepaired_partial_patch_lost`); statically configured port classes have distinct, canonical default attributes, are
 not virtual and — when writable — return no value before the first write; password hashes are never the empty string.
 The store returns what was stored (C06).
+
+**What "every persistence driver" rests on.** The store of this model is ABSTRACT: `Store` is a record of total lookup
+functions `String → Option …` (one per collection: `vports`, `ports`, `slaves`, plus the `device` record), written by
+point updates, i.e. a store that returns exactly what was last stored under an id and `none` after a removal. None of
+the theorems below mentions a driver. That they hold for EVERY persistence driver (JSON file, Redis, MongoDB, …) is
+therefore not proved here: it is the composition with C06, which proves that each driver refines the reference record
+store `Ref` (`json_refines_ref`, `redis_refines_ref`, the `mongo_*_xlate_sound` family; `QtVerif/Props/C06.lean`), of
+which the `String → Option` store is the by-id view (insert/replace/remove/get by `id`). The composition itself is not
+a Lean theorem — C06's `Ref` works on encoded records (`Fields` of `JVal`s in named collections, character-level
+strings), C07's store on decoded `PortRec`s; the encoding between the two is exercised by the correspondence check,
+which runs C07's histories on the real drivers. C06 is not imported here.
+
+**"Written once" reads as follows.** `restart_writes` / `persisted_value_written_once` conclude
+`writes = loadWrites cfg p v`, which is AT MOST one write. The positive clause — exactly one write, with the transformed
+value — is `persisted_value_written_exactly_once`; the cases with NO write (SpecChoices of the repaired code) are
+spelled out in `persisted_value_not_written_when`.
 -/
 namespace QtVerif.C07
 open QtVerif.Config
@@ -138,6 +154,90 @@ theorem persisted_value_written_once (cfg : Cfg) (ok : CfgOK cfg) (ops : List Op
     · rw [hw]; simp only [expectedWrites, hper, hv]
   · intro hper; rw [hw]; simp only [expectedWrites, hper]
   · intro hv; rw [hw]; simp only [expectedWrites, hv]; cases persistedOf p <;> rfl
+
+/-- `p` has no write transform: the attribute is absent (`None`) or the empty text -/
+def NoWriteXform (p : Port) : Prop :=
+  p.attrs "transform_write" = some (.str "") ∨ p.attrs "transform_write" = none
+
+instance (p : Port) : Decidable (NoWriteXform p) :=
+  inferInstanceAs (Decidable (p.attrs "transform_write" = some (.str "") ∨ p.attrs "transform_write" = none))
+
+/-- **persisted value written EXACTLY once** (the positive clause). After any history + save + restart, a WRITABLE,
+persisted port that had value `v`, and that is enabled or has no write transform, has received exactly ONE driver
+write during the load: a one-element list, whose element is what the model's write transform makes of `v`
+(`writeXform cfg p v`: `some w` when the transform `transform_write` yields `w`, `none` when it yields no value) —
+and that is `v` itself when the port has no write transform. -/
+theorem persisted_value_written_exactly_once (cfg : Cfg) (ok : CfgOK cfg) (ops : List Op) (id : String) (p : Port)
+    (v : PVal) :
+    let st := run cfg (init cfg) (ops ++ [.saveTick])
+    st.hub.ports id = some p → p.pdef.writable = true → persistedOf p = true → p.value = some v →
+    (enabledOf p = true ∨ NoWriteXform p) →
+      (boot cfg st.store).writes id = [writeXform cfg p v] ∧
+      (NoWriteXform p → (boot cfg st.store).writes id = [some v]) := by
+  intro st hp hw hper hv hen
+  have h := ((persisted_value_written_once cfg ok ops id p hp).1 hper v hv).2
+  have h1 : (boot cfg st.store).writes id = [writeXform cfg p v] := by
+    rw [h]
+    unfold loadWrites
+    rw [if_pos hw]
+    rcases hen with he | hn | hn
+    · rw [if_neg (by rw [he]; simp)]
+    · rw [if_neg (by rw [hn]; simp)]
+    · rw [if_neg (by rw [hn]; simp)]
+  refine ⟨h1, ?_⟩
+  intro hn
+  rw [h1]
+  rcases hn with hn | hn <;> simp [writeXform, hn]
+
+/-- **… and when it is NOT written** (zero writes although the port is persisted and has a value). Two cases, both
+SpecChoices recorded from the (repaired) code, not consequences of the property text:
+1. the port is not writable — `load_from_data` only restores the last value, there is nothing to write to;
+2. the port is DISABLED and has a (non-empty) write transform — evaluating the transform reads the port's own value,
+   which raises `DisabledPort` on a disabled port; the repaired `load_from_data` logs the error and skips the write
+   (the code as found let the exception abort the start of the hub). The value itself is still restored
+   (`persisted_value_written_once`, first conjunct). -/
+theorem persisted_value_not_written_when (cfg : Cfg) (ok : CfgOK cfg) (ops : List Op) (id : String) (p : Port)
+    (v : PVal) :
+    let st := run cfg (init cfg) (ops ++ [.saveTick])
+    st.hub.ports id = some p → persistedOf p = true → p.value = some v →
+      (p.pdef.writable = false → (boot cfg st.store).writes id = []) ∧
+      (enabledOf p = false → ¬ NoWriteXform p → (boot cfg st.store).writes id = []) := by
+  intro st hp hper hv
+  have h := ((persisted_value_written_once cfg ok ops id p hp).1 hper v hv).2
+  constructor
+  · intro hw
+    rw [h]; unfold loadWrites; rw [hw]; rfl
+  · intro he hn
+    rw [h]; unfold loadWrites
+    have h1 : p.attrs "transform_write" ≠ some (.str "") := fun e => hn (Or.inl e)
+    have h2 : p.attrs "transform_write" ≠ none := fun e => hn (Or.inr e)
+    split
+    · rw [if_pos ⟨he, h1, h2⟩]
+    · rfl
+
+/-- the three clauses together are exhaustive: a persisted port with a value gets one write or none, and which of the
+two is decided by `writable`, `enabled` and the presence of a write transform alone -/
+theorem persisted_value_write_count (cfg : Cfg) (ok : CfgOK cfg) (ops : List Op) (id : String) (p : Port) (v : PVal) :
+    let st := run cfg (init cfg) (ops ++ [.saveTick])
+    st.hub.ports id = some p → persistedOf p = true → p.value = some v →
+      ((boot cfg st.store).writes id).length =
+        if p.pdef.writable = true ∧ (enabledOf p = true ∨ NoWriteXform p) then 1 else 0 := by
+  intro st hp hper hv
+  by_cases hw : p.pdef.writable = true
+  · by_cases hen : enabledOf p = true ∨ NoWriteXform p
+    · rw [if_pos ⟨hw, hen⟩, (persisted_value_written_exactly_once cfg ok ops id p v hp hw hper hv hen).1]; rfl
+    · rw [if_neg (fun h => hen h.2)]
+      have he : enabledOf p = false := by
+        cases h : enabledOf p with
+        | false => rfl
+        | true => exact (hen (Or.inl h)).elim
+      rw [(persisted_value_not_written_when cfg ok ops id p v hp hper hv).2 he (fun h => hen (Or.inr h))]; rfl
+  · rw [if_neg (fun h => hw h.1)]
+    have hw' : p.pdef.writable = false := by
+      cases h : p.pdef.writable with
+      | false => rfl
+      | true => exact (hw h).elim
+    rw [(persisted_value_not_written_when cfg ok ops id p v hp hper hv).1 hw']; rfl
 
 /-- **deleted stays deleted**: in every reachable state (no save needed), a port id that the hub does not have —
 never added, or removed by DELETE /ports/id — is absent after a restart and nothing is written to it; the same for
@@ -338,5 +438,97 @@ example (p : Port) (h1 : p.attrs "transform_write" = some (.str "SUB($, 10)"))
   simp at hw
   subst hw
   simp
+
+/-! ### non-vacuity of the write-count theorems: one write with the transformed value, and the two zero-write cases -/
+
+/-- a statically configured, NON-writable, persisted port whose driver reads 5 -/
+def roDef : PortDef :=
+  { virtual := false, writable := false, vdef := none,
+    defaults := [("enabled", .bool true), ("persisted", .bool true)], initial := some (.num 5) }
+
+def roCfg : Cfg := { driftCfg with statics := fun id => if id = "s1" then some roDef else none }
+
+theorem roCfg_ok : CfgOK roCfg := by
+  refine ⟨driftCfg_ok.canon, rfl, ?_, by decide, driftCfg_ok.hashNe⟩
+  intro id d h
+  have hd : d = roDef := by
+    simp only [roCfg] at h
+    split at h
+    · exact (Option.some.inj h).symm
+    · cases h
+  subst hd
+  refine ⟨⟨by decide, ?_⟩, rfl, fun h => by cases h⟩
+  intro n v hl old
+  simp only [roDef, lookupF] at hl
+  split at hl
+  · next e => subst e; cases hl; rfl
+  · split at hl
+    · next e => subst e; cases hl; rfl
+    · cases hl
+
+set_option synthInstance.maxSize 512
+
+/-- (writable, persisted, enabled, value, no write transform?, write transform of `v`) of port `id` after
+`ops ++ [saveTick]` — everything the hypotheses of the write-count theorems look at, computable by the kernel -/
+def caseView (cfg : Cfg) (ops : List Op) (id : String) (v : PVal) :
+    Option (Bool × Bool × Bool × Option PVal × Bool × Option PVal) :=
+  ((run cfg (init cfg) (ops ++ [.saveTick])).hub.ports id).map
+    (fun p => (p.pdef.writable, persistedOf p, enabledOf p, p.value, decide (NoWriteXform p), writeXform cfg p v))
+
+/-- `persisted_value_written_exactly_once` applied to a state given by its view -/
+theorem exactly_once_of_view (cfg : Cfg) (ok : CfgOK cfg) (ops : List Op) (id : String) (v : PVal) (en nx : Bool)
+    (x : Option PVal) (h : caseView cfg ops id v = some (true, true, en, some v, nx, x)) (hc : en = true ∨ nx = true) :
+    (boot cfg (run cfg (init cfg) (ops ++ [.saveTick])).store).writes id = [x] := by
+  unfold caseView at h
+  cases hp : (run cfg (init cfg) (ops ++ [.saveTick])).hub.ports id with
+  | none => rw [hp] at h; cases h
+  | some p =>
+    rw [hp] at h
+    simp only [Option.map_some, Option.some.injEq, Prod.mk.injEq] at h
+    obtain ⟨hw, hper, hen, hv, hnx, hx⟩ := h
+    rw [(persisted_value_written_exactly_once cfg ok ops id p v hp hw hper hv
+      (hc.imp (fun e => hen.trans e) (fun e => of_decide_eq_true (hnx.trans e)))).1, hx]
+
+/-- `persisted_value_not_written_when` applied to a state given by its view -/
+theorem not_written_of_view (cfg : Cfg) (ok : CfgOK cfg) (ops : List Op) (id : String) (v : PVal) (w en nx : Bool)
+    (x : Option PVal) (h : caseView cfg ops id v = some (w, true, en, some v, nx, x))
+    (hc : w = false ∨ (en = false ∧ nx = false)) :
+    (boot cfg (run cfg (init cfg) (ops ++ [.saveTick])).store).writes id = [] := by
+  unfold caseView at h
+  cases hp : (run cfg (init cfg) (ops ++ [.saveTick])).hub.ports id with
+  | none => rw [hp] at h; cases h
+  | some p =>
+    rw [hp] at h
+    simp only [Option.map_some, Option.some.injEq, Prod.mk.injEq] at h
+    obtain ⟨hw, hper, hen, hv, hnx, _⟩ := h
+    have t := persisted_value_not_written_when cfg ok ops id p v hp hper hv
+    rcases hc with e | ⟨e1, e2⟩
+    · exact t.1 (hw.trans e)
+    · exact t.2 (hen.trans e1) (of_decide_eq_false (hnx.trans e2))
+
+/-- `persisted_value_written_exactly_once`, first disjunct: writable, persisted, ENABLED, write transform `SUB($, 10)`,
+value 11 — the driver receives the single write 1 (= 11 − 10) -/
+example : (boot driftCfg (run driftCfg (init driftCfg) (driftOps "SUB($, 10)" ++ [.saveTick])).store).writes "v1"
+    = [some (.num 1)] :=
+  exactly_once_of_view driftCfg driftCfg_ok (driftOps "SUB($, 10)") "v1" (.num 11) true false (some (.num 1))
+    (by decide +kernel) (Or.inl rfl)
+
+/-- second disjunct: DISABLED but no write transform — still exactly one write, of the value itself -/
+example :
+    let ops := driftOps "" ++ [.patch "v1" [("enabled", .bool false)]]
+    (boot driftCfg (run driftCfg (init driftCfg) (ops ++ [.saveTick])).store).writes "v1" = [some (.num 11)] :=
+  exactly_once_of_view driftCfg driftCfg_ok _ "v1" (.num 11) false true (some (.num 11)) (by decide +kernel) (Or.inr rfl)
+
+/-- `persisted_value_not_written_when`, case 2: disabled WITH a write transform — no write (the value 11 is restored) -/
+example :
+    let ops := driftOps "SUB($, 10)" ++ [.patch "v1" [("enabled", .bool false)]]
+    (boot driftCfg (run driftCfg (init driftCfg) (ops ++ [.saveTick])).store).writes "v1" = [] :=
+  not_written_of_view driftCfg driftCfg_ok _ "v1" (.num 11) true false false (some (.num 1)) (by decide +kernel)
+    (Or.inr ⟨rfl, rfl⟩)
+
+/-- case 1: a NON-writable persisted port (configuration `roCfg` satisfies `CfgOK`) — value 7 restored, no write -/
+example : (boot roCfg (run roCfg (init roCfg) ([.valueChange "s1" (some (.num 7))] ++ [.saveTick])).store).writes "s1"
+    = [] :=
+  not_written_of_view roCfg roCfg_ok _ "s1" (.num 7) false true true (some (.num 7)) (by decide +kernel) (Or.inl rfl)
 
 end QtVerif.C07
